@@ -10,6 +10,7 @@ require (
 	github.com/gogo/protobuf v1.3.2
 	github.com/hashicorp/go-multierror v1.1.1
 	github.com/pkg/errors v0.9.1
+	github.com/sony/gobreaker v1.0.0
 	google.golang.org/protobuf v1.34.2
 	pgregory.net/rapid v1.3.0
 )
@@ -20,7 +21,6 @@ require (
 	github.com/hashicorp/errwrap v1.1.0 // indirect
 	github.com/lithammer/shortuuid/v3 v3.0.7 // indirect
 	github.com/oklog/ulid v1.3.1 // indirect
-	github.com/sony/gobreaker v1.0.0 // indirect
 )
 
 replace github.com/ThreeDotsLabs/watermill => /repo
